@@ -11,7 +11,8 @@ E2  the model's build / clear / rebuild / evaluate sequences (edge cover of the 
 E3  ... and every recorded step (operation or schedule point, thread, and after every step each node's counter,
     predecessor count, dependents_ vector and propagation set) is validated by TLC against the spec.
 E4  seeded random programs (random DAG, subgraph partition, clear/rebuild, marks, duplicate edges, graph move)
-    x executors x pool sizes x random / PCT schedules, validated the same way.
+    x executors x pool sizes x random / PCT schedules, validated the same way; fixed programs in which the graph is
+    move-constructed and move-assigned before a subgraph with cross-subgraph predecessor edges is cleared and rebuilt.
 E5  seeded random DAGs up to 200 nodes on a free-running pool: TLC rebuilds the graph from the operations and
     judges the run log (begin/end records written inside the functors) and the projected structure.
 """
@@ -59,6 +60,17 @@ def run(ctx):
     gc.write_programs(pf3, 'biprop', sample[:len(sample) // 2])
     runs.append(gc.drive(ctx, exe, ['--programs', pf3, '--execs', '0,2', '--seed', ctx.seed + 1, '--varypool'], WHAT,
                          'cover replay BiPropGraph'))
+
+    # graphs that change their address (move construction AND move assignment - the driver alternates) before a subgraph
+    # with predecessor edges from another subgraph is cleared and rebuilt: clear() follows the subgraph's graph_ pointer
+    mv = ['sub,add0,add0,add1,dep3.1,dep3.2,move,move,setall,eval,clr1,add1,dep4.1,dep4.2,setall,eval',
+          'sub,add0,add1,add1,dep2.1,dep3.1,dep3.2,setall,eval,move,clr1,move,add1,add1,dep4.1,dep5.4,setall,eval,move,clr1,add1,dep6.1,setall,eval',
+          'sub,sub,add0,add1,add2,dep2.1,dep3.1,dep3.2,move,clr2,add2,dep4.2,dep4.1,move,clr1,add1,dep5.1,dep4.5,setall,eval']
+    pfm = os.path.join(ctx.work, 'moved.prog')
+    gc.write_programs(pfm, 'node', mv)
+    runs.append(gc.drive(ctx, exe, ['--programs', pfm, '--execs', '0,2,1', '--seed', ctx.seed + 3, '--varypool'], WHAT, 'moved graphs node'))
+    gc.write_programs(pfm + 'b', 'biprop', mv)
+    runs.append(gc.drive(ctx, exe, ['--programs', pfm + 'b', '--execs', '0,2', '--seed', ctx.seed + 4], WHAT, 'moved graphs biprop'))
 
     # E4 + E3 ---------------------------------------------------------------------------------
     n = 120 if thorough else 14
